@@ -625,6 +625,16 @@ func (p *prop) runNegatives(c core.Case, w *core.Worker, res *core.Result) {
 		{"plain-struct", "// +gengo:partialstruct\ntype x struct {\n\tA int\n}\n"},
 		{"local-alias-of-basic", "// +gengo:partialstruct\ntype x string\n"},
 		{"plain-struct-in-group", "type (\n\t// +gengo:partialstruct\n\ta origin.O1\n\t// +gengo:partialstruct\n\tb struct {\n\t\tX int\n\t}\n)\n"},
+		// the same with EXPORTED names, and further kinds that are no struct defined from another named type
+		{"exported-scalar", "// +gengo:partialstruct\ntype Count int\n"},
+		{"exported-plain-struct", "// +gengo:partialstruct\ntype Summary struct {\n\tA int\n}\n"},
+		{"exported-from-named-scalar", "// +gengo:partialstruct\ntype Level origin.Level\n"},
+		{"from-named-scalar", "// +gengo:partialstruct\ntype x origin.Level\n"},
+		{"from-named-map", "// +gengo:partialstruct\ntype x origin.Index\n"},
+		{"slice-of-origin", "// +gengo:partialstruct\ntype x []origin.O1\n"},
+		{"map-of-origin", "// +gengo:partialstruct\ntype X map[string]origin.O1\n"},
+		{"func-type", "// +gengo:partialstruct\ntype x func(origin.O1) error\n"},
+		{"interface-type", "// +gengo:partialstruct\ntype X interface{ M() }\n"},
 		{"plain-struct-before-partial-in-group", "type (\n\t// +gengo:partialstruct\n\tb struct {\n\t\tX int\n\t}\n\t// +gengo:partialstruct\n\ta origin.O1\n)\n"},
 	}
 	for i, ng := range negs {
@@ -635,7 +645,7 @@ func (p *prop) runNegatives(c core.Case, w *core.Worker, res *core.Result) {
 		}
 		m.MustWrite("other/other.go", otherSrc)
 		m.MustWrite("kinds/kinds.go", kindsSrc)
-		m.MustWrite("origin/origin.go", originHeader+"type O1 struct {\n\tA int\n\tB string\n}\n")
+		m.MustWrite("origin/origin.go", originHeader+"type O1 struct {\n\tA int\n\tB string\n}\n\ntype Level int\n\ntype Index map[string]O1\n")
 		src := "package neg\n\n"
 		if strings.Contains(ng.src, "origin.") {
 			src += "import \"" + mod + "/origin\"\n\n"
